@@ -419,7 +419,11 @@ _salt = st.sampled_from(['http://', 'https://', 'www.', 'ftp://', '//', '://', '
                          'example.com', 'www.example.com', 'http://example.com/a(b)c', '1.2.3.4', '256.1.1.1', '\u3002', '\uff0e',
                          # scale classes: ports beyond int()'s 4300-digit conversion limit, non-ASCII decimal digits, long labels/paths
                          ':' + '7' * 4300, ':' + '7' * 4301, 'http://h.example:' + '9' * 5000 + '/', ':\u0661\u0662', ':\u00b2', ':\uff11',
-                         'a' * 5000, 'http://' + 'a.' * 3000 + 'com', '/' * 3000, '%41' * 2000, '\ufeff', '\ufeffhttp://'])
+                         'a' * 5000, 'http://' + 'a.' * 3000 + 'com', '/' * 3000, '%41' * 2000, '\ufeff', '\ufeffhttp://',
+                         # lone surrogates (what os.fsdecode / json.loads can put into a str), alone and next to escapes
+                         '\udc80', '\ud800', '%41\udc80', '#%23\udc80', '?k=%20\ud800',
+                         # scheme-less links whose host only fails validation once a scheme is supplied
+                         'www.xn--0.example', ' www.xn--a.com now', 'www.xn--.com/', 'www.' + 'a' * 64 + '.com', 'www.a..b.com'])
 
 
 def strat_d(tier):
